@@ -15,7 +15,7 @@ ID = "C11"
 LEVEL = "exploration"
 SHARDS = {"quick": 8, "thorough": 16}
 RULE = ("a raw 0xC0 body (assembled by the model's vendor-layout encoder plus raw byte overrides) is reported to a fresh "
-        "AirConditioner, either through refresh() against the model device or through Response.construct + _update_state, or twice to the same client with local attribute changes in between, or after a different report to the same client (optionally with 1..3 late duplicates of that earlier report waiting unread on the idle connection), or through the refresh that toggle_display() performs against a unit that does not act on the display command, or through a multi-query refresh (energy polling on) in which an unsolicited notification overtakes the state reply or the optional energy query goes unanswered; the "
+        "AirConditioner, either through refresh() against the model device or through Response.construct + _update_state, or twice to the same client with local attribute changes in between, or after a different report to the same client (optionally with 1..3 late duplicates of that earlier report waiting unread on the idle connection), or through the refresh that toggle_display() performs against a unit that does not act on the display command, or through a multi-query refresh (energy polling on) in which an unsolicited notification overtakes the state reply or the optional energy query goes unanswered or cannot be delivered (the unit hung up after the state answer and a new connection hangs); the "
         "public attributes must equal the vendor-layout reading of the body: power, mode (members 1..6), setpoint (alternate code "
         "c!=0 => c+12 else primary+16, + half bit), fan (member or raw 0..127), swing (canonical nibbles), turbo, aux mode, eco, "
         "purifier, sleep, Fahrenheit, follow-me, filter, display ((b14>>4)&7 != 7), target humidity iff length>=20 else None, "
@@ -81,6 +81,11 @@ def check_case(case: dict):
                 def on_data(dev_, conn, fr_):
                     pp = rc.frame_parse(fr_)
                     if pp.body[0] == 0x41 and pp.body[1] == 0x81:
+                        if case.get("energy_silent") == "gone":
+                            # the unit answers the state query, hangs up, and does not accept a new connection for a while: the optional
+                            # queries of the same refresh cannot be delivered
+                            dev_.connect_script = ["hang"] * 4
+                            return ("frames", [current["frame"]], {"then": "fin"})
                         if case.get("energy_silent"):
                             return None           # (the state query is answered normally in this variant)
                         conn.send_stream(dev_.wrap(conn, note), delay=0.02)
@@ -255,6 +260,8 @@ def run(ctx) -> None:
                 c4 = dict(case, via="refresh_multi", version=2 if seq % 3 else 3, cls=case["cls"] + " multi-query")
                 if seq % 4 == 0:
                     c4["energy_silent"] = True       # the optional query of the same refresh goes unanswered
+                elif seq % 8 == 2:
+                    c4["energy_silent"] = "gone"     # ... or cannot even be delivered: the unit hung up and a new connection hangs
                 ctx.check(c4, lambda c: _run_one(ctx, c))
     ctx.sweep("second report on the same client / multi-query refresh with an overtaken state reply", seq, True)
 
